@@ -3,7 +3,7 @@
 run the quick check(s) of its property against it; refresh seeded/<id>/meta.json (detected_by, check_results)."""
 import glob, json, os, re, subprocess, sys, time
 def sh(cmd): return subprocess.run(cmd, shell=True, capture_output=True, text=True)
-wt = "/tmp/wt/reseed"
+wt = os.environ.get("RESEED_WT", "/tmp/wt/reseed")
 if not os.path.isdir(wt):
     print(sh("/verif/tools/mkwt.sh reseed").stdout.strip())
 head = sh("git -C /repo rev-parse HEAD").stdout.strip()
@@ -23,7 +23,7 @@ for sid in ids:
     res = {}
     for cid in checks:
         t = time.time()
-        r = sh(f"VERIF_REPO={wt} VERIF_OUT=/var/tmp/numpoly-verif-mut /verif/check {cid}")
+        r = sh(f"VERIF_REPO={wt} VERIF_OUT=/var/tmp/numpoly-verif-mut-{os.path.basename(wt)} /verif/check {cid}")
         first = next((l for l in r.stdout.splitlines() if l.startswith("  ")), "")
         res[cid] = {"exit": r.returncode, "violation_lines": len(re.findall(r"^VIOLATION", r.stdout, re.M)), "first": first.strip()[:300], "wall_s": round(time.time() - t, 1)}
     meta.update(check_results=res, detected_by={k: v["exit"] == 1 for k, v in res.items()}, repo_head=head, applies_to_head=True)
